@@ -125,3 +125,9 @@ def nontrivial(u, impl, model):
 
 def shrinkable(u):
     return True
+
+
+def demonstrate_known(known, evaluate):
+    import sys
+    from harness.pcommon import rnp_demo
+    return rnp_demo(known, evaluate, sys.modules[__name__], ID)
